@@ -2,12 +2,14 @@
 
    Model: SimSync.v -- one transition per block between two scheduling points of the streamer thread
    (simulated_camera_streamer_thread), the caller (simcam_get_frame behind camera_get_frame) and the controller
-   (start / stop / execute_trigger / set behind the HAL wrappers), over any number of runs of one device, for the code
+   (start / stop / execute_trigger / set behind the HAL wrappers -- a set the device accepts, and a set the device REJECTS,
+   on which the HAL's camera_set stops a Running camera and stores AwaitingConfiguration), over any number of runs of one
+   device, for the code
    WITH fixes/01-simcam-start-clears-stale-trigger.patch (c_fix9 = true: simcam_start clears software_trigger.triggered).
 
      reach c cs    the state after ANY schedule cs : list Tid (any length; choices that are not enabled are skipped)
                    from the initial state of ANY configuration c (initial trigger enable, spurious wake-ups allowed or
-                   not, any controller script over start/stop/trigger/set e/set d/pause, any caller script)
+                   not, any controller script over start/stop/trigger/set e/set d/rejected set/pause, any caller script)
      labels c cs   the labels of the steps taken (scheduling point left, events = return codes and delivered ids)
 
    Ghost fields of the state (C18_ghost_is_trace says they are functions of the observable events alone):
@@ -76,6 +78,46 @@ Theorem C18_restart : forall c cs t s' l, c_fix9 c = true ->
 Proof. exact restart_reach. Qed.
 Print Assumptions C18_restart.
 
+(* ... and a start that is REFUSED (the HAL state is not Armed: the camera is Running, or it is AwaitingConfiguration
+   after a set the device rejected) begins no new run: no field of the device, no counter of the run changes. *)
+Theorem C18_restart_refused : forall s t s' l, step s t = Some (s', l) -> In EvSkip (l_evs l) ->
+  t = Ctl /\ hal s <> HArmed /\ l_evs l = [EvBegin KStart; EvSkip] /\
+  hal s' = hal s /\ running s' = running s /\ runs s' = runs s /\ spc s' = spc s /\ live s' = live s /\
+  gen s' = gen s /\ ext s' = ext s /\ deliv s' = deliv s /\ gated s' = gated s /\
+  fid s' = fid s /\ last s' = last s /\ triggered s' = triggered s /\ enable s' = enable s.
+Proof. exact start_refused_step. Qed.
+Print Assumptions C18_restart_refused.
+
+(* AwaitingConfiguration (where a rejected set leaves the HAL): the camera is not running and no streamer thread is alive;
+   the state is left only by a set the device accepts (which arms the camera); every start issued before that is refused. *)
+Theorem C18_await_until_accepted_set : forall c cs, c_fix9 c = true ->
+  let s := reach c cs in
+  hal s = HAwait ->
+  running s = false /\ in_stop s = false /\ (spc s = SNone \/ spc s = SDone) /\
+  (forall t s' l, step s t = Some (s', l) ->
+     hal s' = HAwait \/ (exists e, l_evs l = [EvRet (KSet e) 0] /\ hal s' = HArmed /\ enable s' = e)) /\
+  (forall r s' l, kpc s = KIdle -> kscript s = KStart :: r -> step s Ctl = Some (s', l) ->
+     l_evs l = [EvBegin KStart; EvSkip] /\ hal s' = HAwait /\ runs s' = runs s /\ running s' = running s /\
+     spc s' = spc s /\ kscript s' = r).
+Proof. exact await_reach. Qed.
+Print Assumptions C18_await_until_accepted_set.
+
+(* A set the device rejects returns Device_Err and leaves the HAL in AwaitingConfiguration with the camera NOT running;
+   the trigger configuration and the run's counters are untouched.  On a Running camera that return is the last step of
+   a complete stop (in_stop: the protocol of C18_stop_unblocks, thread joined); otherwise the op is one block that
+   changes nothing but the HAL state. *)
+Theorem C18_rejected_set : forall c cs t s' l rc, c_fix9 c = true ->
+  let s := reach c cs in
+  step s t = Some (s', l) -> In (EvRet KRej rc) (l_evs l) ->
+  t = Ctl /\ rc = 1 /\ hal s' = HAwait /\ running s' = false /\ in_stop s' = false /\
+  enable s' = enable s /\ gated s' = gated s /\ deliv s' = deliv s /\ ext s' = ext s /\ gen s' = gen s /\
+  runs s' = runs s /\ spc s' = spc s /\
+  ((hal s = HRunning /\ in_stop s = true /\ stop_rej s = true /\ live s' = false) \/
+   (hal s <> HRunning /\ in_stop s = false /\ l_evs l = [EvBegin KRej; EvRet KRej 1] /\ live s' = live s /\
+    triggered s' = triggered s /\ wanted s' = wanted s /\ fid s' = fid s /\ last s' = last s)).
+Proof. exact rejected_set_reach. Qed.
+Print Assumptions C18_rejected_set.
+
 (* With the software frame trigger enabled for the whole run: never more frames delivered than external triggers of
    this run, none before the first one; moreover frames generated + a pending trigger <= external triggers (+ 1 for the
    trigger that stop itself fires to release the streamer, once stop has done so). *)
@@ -98,7 +140,10 @@ Theorem C18_gated_no_frame_before_trigger : forall c cs t s' l rc id, c_fix9 c =
 Proof. exact gated_first. Qed.
 Print Assumptions C18_gated_no_frame_before_trigger.
 
-(* Stop always returns (bounded progress, spurious wake-ups allowed).  Once stop has been invoked on a running camera
+(* Stop always returns (bounded progress, spurious wake-ups allowed).  "Stop" is camera_stop on a Running camera,
+   whoever calls it: the script op X, or camera_set's error branch when the device rejects the settings (op b) --
+   in_stop covers both (C18_stop_enter_step), and which of the two it is (stop_rej) plays no role before the returning
+   step (C18_stop_kind_stable, C18_stop_return_step).  Once stop has been invoked on a running camera
    (in_stop: is_running is already 0):
      - the measure mu (<= 12) strictly decreases on every non-spurious step of the controller, of the streamer, and of
        the caller while it is inside get_frame (Dstop); a spurious wake-up raises it by at most 1; other steps leave it;
@@ -115,13 +160,30 @@ Theorem C18_stop_unblocks : forall c cs, c_fix9 c = true ->
 Proof. exact stop_unblocks_reach. Qed.
 Print Assumptions C18_stop_unblocks.
 
-(* the step that ends stop is the controller's, returns Device_Ok, and leaves the HAL state Armed with the thread joined *)
+(* the step that begins a stop is the controller's, on a camera the HAL reports Running; it clears is_running in that very
+   block and is followed by the lock acquisition of stop's trigger; it begins either op X or a rejected set (op b) *)
+Theorem C18_stop_enter_step : forall s t s' l, step s t = Some (s', l) -> in_stop s = false -> in_stop s' = true ->
+  t = Ctl /\ hal s = HRunning /\ hal s' = HRunning /\ running s' = false /\ at_stop_lock s' = true /\
+  ((l_evs l = [EvBegin KStop] /\ stop_rej s' = false) \/ (l_evs l = [EvBegin KRej] /\ stop_rej s' = true)).
+Proof. exact stop_enter_step. Qed.
+Print Assumptions C18_stop_enter_step.
+
+Theorem C18_stop_kind_stable : forall s t s' l, step s t = Some (s', l) -> in_stop s = true -> in_stop s' = true ->
+  stop_rej s' = stop_rej s.
+Proof. exact stop_rej_stable. Qed.
+Print Assumptions C18_stop_kind_stable.
+
+(* the step that ends a stop is the controller's and leaves the thread joined; op X returns Device_Ok with the HAL state
+   Armed; the rejected set returns the device's Device_Err with the HAL state AwaitingConfiguration *)
 Theorem C18_stop_return_step : forall s t s' l, step s t = Some (s', l) -> in_stop s = true -> in_stop s' = false ->
-  t = Ctl /\ In (EvRet KStop 0) (l_evs l) /\ hal s' = HArmed /\ live s' = false.
+  t = Ctl /\ live s' = false /\ running s' = running s /\
+  ((stop_rej s = false /\ l_evs l = [EvRet KStop 0] /\ hal s' = HArmed) \/
+   (stop_rej s = true /\ l_evs l = [EvRet KRej 1] /\ hal s' = HAwait)).
 Proof. exact stop_return_step. Qed.
 Print Assumptions C18_stop_return_step.
 
-(* Stop unblocks a pending frame call.  Whenever is_running is 0 (from the first block of stop until the next start) a
+(* Stop unblocks a pending frame call.  Whenever is_running is 0 (from the first block of a stop -- op X or the stop
+   inside a rejected set -- until the next successful start, AwaitingConfiguration included) a
    caller inside get_frame is never asleep un-notified, nor between its check and its sleep, unless the controller is
    still at the lock acquisition that precedes its notify (which the caller's own next step then enables); and every step
    it takes from its lock acquisition or from its wait (spurious or not) RETURNS, through the shutdown exit: Device_Ok,
@@ -129,8 +191,8 @@ Print Assumptions C18_stop_return_step.
 Theorem C18_stop_releases_caller : forall c cs, c_fix9 c = true ->
   let s := reach c cs in
   running s = false ->
-  (cpc s = CPre -> kpc s = KStopLock) /\
-  (cpc s = CWait -> cnot s = false -> kpc s = KStopLock) /\
+  (cpc s = CPre -> at_stop_lock s = true) /\
+  (cpc s = CWait -> cnot s = false -> at_stop_lock s = true) /\
   (forall s' l, cpc s = CLock \/ cpc s = CWait -> step s Cal = Some (s', l) ->
      l_evs l = [EvGet 0 false (-1)] /\ deliv s' = deliv s /\ cpc s' = cnext (cscript s)).
 Proof. exact caller_released_reach. Qed.
@@ -168,7 +230,7 @@ Proof. vm_compute. repeat split. do 2 eexists. split; reflexivity. Qed.
    hypotheses of C18_stop_unblocks and C18_stop_releases_caller; five more steps and both have returned *)
 Example ex_stop_pending :
   let s := reach cfg_gated (sch_gated ++ [C;C;C;R;R;K]) in
-  in_stop s = true /\ running s = false /\ cpc s = CWait /\ cnot s = false /\ spc s = SWait /\ kpc s = KStopLock /\
+  in_stop s = true /\ running s = false /\ cpc s = CWait /\ cnot s = false /\ spc s = SWait /\ kpc s = KStopLock false /\
   mu s = 8%nat /\
   let s2 := reach cfg_gated (sch_gated ++ [C;C;C;R;R;K] ++ [K;C;R;R;R;K]) in
   in_stop s2 = false /\ hal s2 = HArmed /\ cpc s2 = CExit /\ deliv s2 = [1; 0].
@@ -207,6 +269,52 @@ Example ex_restart :
   (exists s' l, step s2 Ctl = Some (s', l) /\ In (EvRet KStart 0) (l_evs l)) /\
   runs s3 = 2 /\ deliv s3 = [0] /\ gen s3 = 1.
 Proof. vm_compute. repeat split. do 2 eexists. split; [reflexivity|right; left; reflexivity]. Qed.
+
+(* a set the device rejects, issued on a gated run with a get_frame asleep un-notified and the streamer waiting for a
+   trigger that never comes: hypotheses of C18_stop_unblocks / C18_stop_releases_caller / C18_stop_enter_step (the
+   entering step is s0 -> s) with stop_rej = true; six more steps and the caller has left through the shutdown exit and the
+   set has returned Device_Err with the HAL AwaitingConfiguration (hypotheses of C18_stop_return_step, C18_rejected_set);
+   the next start is refused (C18_restart_refused, C18_await_until_accepted_set); a set the device accepts re-arms the
+   camera and the start after it begins run 2 (C18_restart), whose first delivery is id 0 after one trigger *)
+Definition cfg_rej : Config :=
+  mkConfig true false true [KStart; KRej; KStart; KSet true; KStart; KTrig; KStop] [CGet; CGet].
+Definition sch_rej0 : list Tid := [K;K;C;C;C;C;R;R;R].
+Definition sch_rej1 : list Tid := [K;C;R;R;R;K].
+Definition sch_rej2 : list Tid := [K;K;K;K; C;C;C; R;R;R; K;K; R;R;R; C].
+
+Example ex_rejected_set_stops :
+  let s0 := reach cfg_rej sch_rej0 in
+  let s := reach cfg_rej (sch_rej0 ++ [K]) in
+  in_stop s0 = false /\ hal s0 = HRunning /\ gated s0 = true /\ ext s0 = 0 /\
+  in_stop s = true /\ stop_rej s = true /\ at_stop_lock s = true /\ running s = false /\
+  cpc s = CWait /\ cnot s = false /\ spc s = SWait /\ snot s = false /\ mu s = 8%nat /\
+  stop_tally s sch_rej1 = (6%nat, 0%nat) /\
+  let s5 := reach cfg_rej (sch_rej0 ++ [K] ++ firstn 5 sch_rej1) in
+  in_stop s5 = true /\ cpc s5 = CIdle /\ deliv s5 = [] /\
+  (exists s' l, step s5 Ctl = Some (s', l) /\ l_evs l = [EvRet KRej 1] /\ in_stop s' = false) /\
+  let s6 := reach cfg_rej (sch_rej0 ++ [K] ++ sch_rej1) in
+  in_stop s6 = false /\ hal s6 = HAwait /\ running s6 = false /\ live s6 = false /\ spc s6 = SDone /\ runs s6 = 1 /\
+  (exists s' l, step s6 Ctl = Some (s', l) /\ l_evs l = [EvBegin KStart; EvSkip] /\ hal s' = HAwait /\ runs s' = 1).
+Proof.
+  vm_compute. repeat split; try (do 2 eexists; repeat split).
+Qed.
+
+Example ex_rearmed_after_rejected_set :
+  let s3 := reach cfg_rej (sch_rej0 ++ [K] ++ sch_rej1 ++ firstn 3 sch_rej2) in
+  let s9 := reach cfg_rej (sch_rej0 ++ [K] ++ sch_rej1 ++ sch_rej2) in
+  hal s3 = HArmed /\ runs s3 = 1 /\
+  (exists s' l, step s3 Ctl = Some (s', l) /\ In (EvRet KStart 0) (l_evs l) /\ runs s' = 2) /\
+  runs s9 = 2 /\ gated s9 = true /\ ext s9 = 1 /\ deliv s9 = [0] /\ hal s9 = HRunning.
+Proof.
+  vm_compute. repeat split. do 2 eexists. repeat split. right; left; reflexivity.
+Qed.
+
+(* a rejected set on a camera that is not running (here: before the first start) is a single block *)
+Example ex_rejected_set_while_stopped :
+  let s := reach (mkConfig true false true [KRej; KStart] []) [K] in
+  hal s = HArmed /\
+  exists s' l, step s Ctl = Some (s', l) /\ l_evs l = [EvBegin KRej; EvRet KRej 1] /\ hal s' = HAwait /\ in_stop s' = false.
+Proof. vm_compute. split; [reflexivity|]. do 2 eexists. repeat split. Qed.
 
 (* ------------------------------------------------------------------------------------------------------------------
    D9.  The repair is necessary: in the model of the code BEFORE the patch (c_fix9 = false: simcam_start leaves
